@@ -3239,7 +3239,10 @@ def chain_binary(rng, env, xi, pi, pd):
             ax_x = [axarg(rng, X, order[j]) for j in js]
             ax_p = [axarg(rng, Pt, j) for j in js]
             axes = [ax_x, ax_p] if x_first else [ax_p, ax_x]
-        return {'op': 'inner', 'a': xi if x_first else pi, 'b': pi if x_first else xi, 'axes': axes, 'do_conj': pd['do_conj']}
+        o = {'op': 'inner', 'a': xi if x_first else pi, 'b': pi if x_first else xi, 'axes': axes, 'do_conj': pd['do_conj']}
+        if ext_p(env, 0.2):
+            o['as_lists'] = env.xr.randint(1, 3)
+        return o
     S, P, k = pd['S'], pd['P'], len(pd['S'])
     if pd['standard'] and rng.random() < 0.5:
         axes = k
